@@ -165,6 +165,9 @@ def deep_expand(fl, expr, node, depth=3):
             if how[0] != "assign":
                 continue
             init = how[1]
+            if isinstance(init, ast.Name) and init.id != nm and depth > 0:
+                out += deep_expand(fl, init, d, depth)          # a plain alias (result temporary): looked through at no cost
+                continue
             empty = (isinstance(init, (ast.List, ast.Dict)) and not (getattr(init, "elts", None) or getattr(init, "keys", None))) or \
                     (isinstance(init, ast.Call) and call_name(init) in ("dict", "list") and not init.args)
             if not empty:
